@@ -21,6 +21,12 @@ ENGINES = {
 PROPS = {
     "C05": dict(engines=["ugm"], props_file="Props/C05.v", checkers=["Oracles/UgmCheck.v"],
                 coq_scan=["Ugm", "Oracles/UgmCheck.v", "Props/C05.v"], level="proof",
-                manifest=dict(category="proof", text="TODO", note="TODO", technique="Coq invariant proofs + model/implementation correspondence"),
-                assumptions=[]),
+                manifest=dict(category="proof",
+                              text="Coq theorems over an executable Gallina model of ugm.Manager/UserTracker/GroupTracker/QueueTracker: headroom_sound and canrun_sound (an Increase whose ask fits Manager.Headroom / whose application passed Manager.CanRunApp keeps usage <= limit and running applications <= max applications on every queue of the path, user and resolved group), usage_is_sum (+ back to zero) by an invariant over every paired Increase/Decrease/Headroom/CanRunApp history without reload, group_stable, limits_stable (limits in force stay those of the configuration until the next reload, nested queues included), reload_exact_partial (first load into a fresh manager of a configuration with its limits on the root queue + any reload-free history); reload exactness, conservation across reloads and reload determinism are REFUTED by witnesses that are known findings (lost named limit, group usage reset, map-order dependence); model tied to the Go code by a step-wise correspondence run (model step from the implementation's previous state = implementation's next state) and the property's own predicates evaluated on the implementation's states on every invocation",
+                              note="theorems are about the hand-written Gallina model (coq/Ugm); the tie to the code is differential (generated histories <= 40 calls, 3 users x 3 groups x queue depth 3, reloads derived from the previous configuration); usage/enforcement theorems assume int64-range values without duplicate resource types on the path (path_wf / hist_all_ok), conservation starts from a state without usage whose configured groups have trackers with a real limit (decidable: inv0b); reload_exact holds only on the stated class; three recorded known findings keep the configuration/conservation clauses false on particular reload sequences; kernel + vm_compute trusted",
+                              technique="Coq invariant proofs + refutation witnesses + model/implementation correspondence with Gallina oracles"),
+                assumptions=["resource quantities and all partial sums of a history stay within int64 (hist_all_ok / path_wf), no duplicate resource types in one vector",
+                             "applications keep one user, one group list and one queue path; removeApp is passed exactly with the release of everything the application holds (what Application.removeAllocation does outside the Failing/placeholder corner owned by C03/C06)",
+                             "UpdateConfig's Go map iteration order: the model accepts any order of the group resets (<= 5 resets enumerated) and the two extreme orders of the other phases",
+                             "queue names are interned so that strings.ToLower corresponds to qlower (harness/ugm.go ugmQName)"]),
 }
